@@ -17,6 +17,13 @@ use std::cell::RefCell;
 //
 thread_local!(static MANAGER : RefCell<ReManager> = RefCell::new(ReManager::new()));
 
+/// Run `f` on the thread-local manager used by the functions of this module
+/// (for external runtime monitors, feature `verif-hooks`)
+#[cfg(feature = "verif-hooks")]
+pub fn verif_with_manager<T>(f: impl FnOnce(&mut ReManager) -> T) -> T {
+    MANAGER.with(|m| f(&mut m.borrow_mut()))
+}
+
 ///
 /// Singleton language
 ///
